@@ -201,7 +201,7 @@ def _compute_dspeciesdt_grid(system,
             d_rates = compute_diffusion_rates(system, species, p, c, state, units_system)
             d += (d_rates[1] - d_rates[0])
 
-    if apply_chemostats and system.chemostats[system.space.get_cell_index(position)]:
+    if apply_chemostats and system.chemostats[system.get_state_index(species_index, position)]:
     	return UnitValue(0, "molecule/s").convert(units_system)
     
     return d.convert(units_system)
@@ -232,7 +232,7 @@ def _compute_dspeciesdt_graph(system,
         d_rates = compute_diffusion_rates(system, species, position, j, state, units_system)
         d += (d_rates[1] - d_rates[0])
     
-    if apply_chemostats and system.chemostats[system.space.get_cell_index(position)]:
+    if apply_chemostats and system.chemostats[system.get_state_index(species_index, position)]:
     	return UnitValue(0, "molecule/s").convert(units_system)
     
     return d.convert(units_system)
